@@ -219,7 +219,10 @@ def work(item):
 def run(ctx):
     from orquestra.quantum.estimation import _estimation as ESm
 
-    ctx.fn(ESm.estimate_expectation_values_by_averaging, ESm.split_estimation_tasks_to_measure, ESm.evaluate_non_measured_estimation_tasks, ESm.evaluate_estimation_circuits, ESm.calculate_exact_expectation_values)
+    try:  # evidence only: a renamed private helper must not break the check
+        ctx.fn(ESm.estimate_expectation_values_by_averaging, ESm.split_estimation_tasks_to_measure, ESm.evaluate_non_measured_estimation_tasks, ESm.evaluate_estimation_circuits, ESm.calculate_exact_expectation_values)
+    except AttributeError:
+        pass
     tmo = 60 if ctx.tier == "quick" else 300
     only = getattr(ctx, "only", None)
     if not only or only.startswith("h_") or only == "xh":
